@@ -190,10 +190,11 @@ L1D3(i, eff, l1d) ==
   THEN IF HitIdx(l1d, eff.addr) # {} THEN TouchLRU(l1d, eff.addr) ELSE PushLRU(l1d, eff.addr - (eff.addr % 64))
   ELSE IF eff.kind = "mem" THEN TouchLRU(l1d, eff.addr) ELSE l1d
 
-InitState(regs) ==
-  [pc |-> 0, regs |-> regs, mem |-> <<>>, status |-> "run", n |-> 0, cyc1 |-> 0,
+InitStateM(regs, mem0) ==
+  [pc |-> 0, regs |-> regs, mem |-> mem0, status |-> "run", n |-> 0, cyc1 |-> 0,
    cyc2 |-> 0, win2 |-> <<-1, -1>>, cyc3 |-> 0, l1i3 |-> <<>>, l1d3 |-> <<>>,
    ev |-> <<>>]
+InitState(regs) == InitStateM(regs, <<>>)
 
 (* one sequential step *)
 Step(prog, st, img, memSize) ==
